@@ -4,6 +4,7 @@
 #include "vf_main.hpp"
 #include "rec.hpp"
 #include "mcmap.hpp"
+#include "hep/mc-mpi.hpp"
 
 typedef VF_T T;
 using namespace vf;
@@ -350,6 +351,31 @@ void accessor_case(Rng& rng)
     ++ctx().evaluations;
 }
 
+// one MPI iteration with more evaluations than a float can count (2^24 + 3 on two shim ranks): the counters of the reduced result are exact
+T never_zero(hep::mc_point<T> const& p) { return T(0.5) + p.point()[0]; }
+struct GoOnMpi2 { template <typename C> bool operator()(MPI_Comm, C const&) const { return true; } };
+
+void mpi_counter_case()
+{
+    std::size_t const N = (std::size_t(1) << 24) + 3;
+    std::vector<hep::plain_result<T>> res(2, hep::plain_result<T>(std::vector<hep::distribution_result<T>>(), 0, 0, 0, T(), T()));
+    VfWorld world;
+    vf_mpi_run(world, 2, 5, [&](int rank, MPI_Comm comm) {
+        typedef hep::plain_chkpt_with_rng<std::mt19937, T> C;
+        C r = hep::mpi_plain(comm, hep::make_integrand<T>(never_zero, 1), std::vector<std::size_t>(1, N), C(std::mt19937(3)), GoOnMpi2());
+        res[rank] = r.results()[0];
+    });
+    J info;
+    info.s("T", tname<T>::get()).s("integrator", "mpi_plain").u("calls", N).i("ranks", 2);
+    ++ctx().evaluations;
+    count("mpi_iterations_with_more_than_2^24_evaluations");
+    if (world.aborted) { viol("mpi:collective-mismatch-or-hang", info); return; }
+    for (int r = 0; r < 2; ++r)
+        if (res[r].calls() != N || res[r].non_zero_calls() != N || res[r].finite_calls() != N)
+        { viol("mpi:counters-of-the-reduced-result", J(info).i("rank", r).u("reported_calls", res[r].calls()).u("non_zero_calls", res[r].non_zero_calls()).u("finite_calls", res[r].finite_calls())); return; }
+    nontrivial(hash_str(info.str()));
+}
+
 std::uint64_t vfh_num_cases(bool thorough) { return thorough ? 20000 : 300; }
-void vfh_run_case(std::uint64_t idx, Rng& rng) { if (idx % 10 == 9) accessor_case(rng); else run_case(rng, idx); }
+void vfh_run_case(std::uint64_t idx, Rng& rng) { if (idx == 7) mpi_counter_case(); else if (idx % 10 == 9) accessor_case(rng); else run_case(rng, idx); }
 void vfh_selftest() {}
